@@ -8,7 +8,9 @@ import (
 	"encoding/json"
 	"flag"
 	"fmt"
+	"github.com/nyaruka/gocommon/dates"
 	"strings"
+	"time"
 
 	"github.com/nyaruka/goflow/envs"
 	"github.com/nyaruka/goflow/excellent"
@@ -105,7 +107,8 @@ func c17Legacy(args []string) error {
 	}
 	defer f.Close()
 	lw.keepAll = true
-	env := envs.NewBuilder().Build()
+	env := envs.NewBuilder().WithDateFormat(envs.DateFormatDayMonthYear).Build()
+	dates.SetNowFunc(dates.NewFixedNow(time.Date(2018, 4, 11, 13, 24, 30, 0, time.UTC)))
 	ctx := types.NewXObject(map[string]types.XValue{
 		"fields":  types.NewXObject(map[string]types.XValue{"age": types.NewXNumberFromInt(4)}),
 		"contact": types.NewXObject(map[string]types.XValue{"name": types.NewXText("Bob"), "__default__": types.NewXText("Bob")}),
@@ -148,6 +151,10 @@ func c17Legacy(args []string) error {
 				line.Den = LVal{"s", c.Den.V.(string)}
 			case "b":
 				line.Den = LVal{"b", fmt.Sprint(c.Den.V.(bool))}
+			case "d":
+				// a day: what the template shows is that day in the environment's date format
+				day := dates.Now().In(env.Timezone()).AddDate(0, 0, int(c.Den.V.(float64)))
+				line.Den = LVal{"s", day.Format("02-01-2006")}
 			}
 		}
 		prefix, suffix := "Total: ", " units @@ a@b.com"
@@ -158,6 +165,9 @@ func c17Legacy(args []string) error {
 					line.Panic = fmt.Sprint(r)
 				}
 			}()
+			// the same template is first migrated the way date tests migrate their arguments (no formatting of dates):
+			// what one call returned must not leak into the next
+			expressions.MigrateTemplate(line.Legacy, &expressions.MigrateOptions{RawDates: true})
 			migrated, merr := expressions.MigrateTemplate(line.Legacy, nil)
 			line.Migrated = migrated
 			if merr != nil {
